@@ -157,7 +157,7 @@ theorem nodupes_sound_partial (raw : List Rec) (numCtx : Nat) (k : Key) (i : Nat
     distinct, so no scan happens and the key resolves to position 1 although position 0
     carries it too (finding `legacy-tablename-key-shared-by-two-columns-last-wins`) -/
 theorem nodupes_counterexample :
-    let raw : List Rec := [⟨0, 1, 1, [2, 1, 1, 7]⟩, ⟨1, 3, 3, [4, 3, 3, 7]⟩]
+    let raw : List Rec := [⟨0, 1, 1, [2, 1, 1, 7], none⟩, ⟨1, 3, 3, [4, 3, 3, 7], none⟩]
     dupesBranch raw 2 = false ∧ lookup raw 2 7 = .found 1 ∧ (7 : Key) ∈ carried raw[0] := by
   decide
 
@@ -224,13 +224,13 @@ theorem enumFrom_getElem? {α : Type} : ∀ (l : List α) (n i : Nat),
     and objects of the `i`-th compiled column, with MD_INDEX = `i` -/
 theorem positional_merge (rcs : List RC) (i : Nat) :
     (mergePositional rcs)[i]? =
-      rcs[i]?.map (fun rc => { idx := i, name := rc.name, rendered := rc.keyname, objects := rc.objects }) := by
+      rcs[i]?.map (fun rc => { idx := i, name := rc.name, rendered := rc.keyname, objects := rc.objects, ridx := some i }) := by
   unfold mergePositional
   rw [List.getElem?_map, enumFrom_getElem?]
   cases rcs[i]? <;> simp
 
 /-! non-vacuity -/
-example : WF [⟨0, 1, 1, [2, 1, 1, 7]⟩, ⟨1, 9, 3, [4, 3, 3, 8]⟩] := by
+example : WF [⟨0, 1, 1, [2, 1, 1, 7], none⟩, ⟨1, 9, 3, [4, 3, 3, 8], none⟩] := by
   intro r hr
   simp only [List.mem_cons, List.not_mem_nil, or_false] at hr
   rcases hr with rfl | rfl
@@ -238,8 +238,8 @@ example : WF [⟨0, 1, 1, [2, 1, 1, 7]⟩, ⟨1, 9, 3, [4, 3, 3, 8]⟩] := by
   · right; intro r' hr'
     simp only [List.mem_cons, List.not_mem_nil, or_false] at hr'
     rcases hr' with rfl | rfl <;> simp [carried]
-example : lookup [⟨0, 1, 1, [2, 1]⟩, ⟨1, 1, 1, [4, 1]⟩, ⟨2, 5, 5, [6]⟩] 3 1 = .ambiguous ∧
-    lookup [⟨0, 1, 1, [2, 1]⟩, ⟨1, 1, 1, [4, 1]⟩, ⟨2, 5, 5, [6]⟩] 3 4 = .found 1 ∧
-    dupesBranch [⟨0, 1, 1, [2, 1]⟩, ⟨1, 1, 1, [4, 1]⟩, ⟨2, 5, 5, [6]⟩] 3 = true := by decide
+example : lookup [⟨0, 1, 1, [2, 1], none⟩, ⟨1, 1, 1, [4, 1], none⟩, ⟨2, 5, 5, [6], none⟩] 3 1 = .ambiguous ∧
+    lookup [⟨0, 1, 1, [2, 1], none⟩, ⟨1, 1, 1, [4, 1], none⟩, ⟨2, 5, 5, [6], none⟩] 3 4 = .found 1 ∧
+    dupesBranch [⟨0, 1, 1, [2, 1], none⟩, ⟨1, 1, 1, [4, 1], none⟩, ⟨2, 5, 5, [6], none⟩] 3 = true := by decide
 
 end SaVerif.Props.C11
